@@ -5,6 +5,7 @@
 mod c11;
 mod c12;
 mod c13;
+mod c19;
 mod harness;
 mod sim;
 
@@ -22,6 +23,7 @@ fn run_case(case: &Json) -> Result<(Option<(String, String)>, u64), String> {
         }
         "c11-input" => c11::run_case(case),
         "c13-pair" => c13::run_case(case),
+        "c19-text" => c19::run_case(case),
         other => Err(format!("unknown case kind {other:?}")),
     }
 }
@@ -60,6 +62,7 @@ fn main() {
                 "C11" => c11::worker(&args, &mut stats),
                 "C12" => c12::worker(&args, &mut stats),
                 "C13" => c13::worker(&args, &mut stats),
+                "C19" => c19::worker(&args, &mut stats),
                 p => {
                     eprintln!("buildsim does not serve {p}");
                     std::process::exit(2);
